@@ -3,6 +3,7 @@
 package layout
 
 import (
+	"math"
 	"sort"
 
 	"github.com/tsawler/tabula/model"
@@ -651,6 +652,7 @@ func (d *ColumnDetector) createColumnsFromGaps(fragments []text.TextFragment, ga
 // validateColumns validates and cleans up detected columns
 func (d *ColumnDetector) validateColumns(columns []Column) []Column {
 	var valid []Column
+	var narrow []Column
 
 	for _, col := range columns {
 		// Skip empty columns
@@ -658,12 +660,39 @@ func (d *ColumnDetector) validateColumns(columns []Column) []Column {
 			continue
 		}
 
-		// Skip columns that are too narrow
+		// Columns that are too narrow are not columns of their own ...
 		if col.BBox.Width < d.config.MinColumnWidth {
+			narrow = append(narrow, col)
 			continue
 		}
 
 		valid = append(valid, col)
+	}
+
+	// ... but their text still belongs to the page: give it to the nearest
+	// real column (or keep the narrow columns when there is no other)
+	if len(valid) == 0 {
+		valid = narrow
+	} else {
+		for _, n := range narrow {
+			best, bestDist := 0, math.MaxFloat64
+			for i, v := range valid {
+				dist := 0.0
+				if n.BBox.X > v.BBox.X+v.BBox.Width {
+					dist = n.BBox.X - (v.BBox.X + v.BBox.Width)
+				} else if v.BBox.X > n.BBox.X+n.BBox.Width {
+					dist = v.BBox.X - (n.BBox.X + n.BBox.Width)
+				}
+				if dist < bestDist {
+					best, bestDist = i, dist
+				}
+			}
+			valid[best].Fragments = append(valid[best].Fragments, n.Fragments...)
+			sort.SliceStable(valid[best].Fragments, func(i, j int) bool {
+				return valid[best].Fragments[i].Y > valid[best].Fragments[j].Y
+			})
+			valid[best].BBox = fragmentsBBox(valid[best].Fragments)
+		}
 	}
 
 	// Re-index columns
